@@ -99,6 +99,58 @@ pub fn run(ctx: &Ctx) {
     }
     ctx.enumerate("grid_all_hash_w", grid.len() as u64, true, |i| grid[i as usize].clone(), |c| check_byte_exact(ctx, c));
 
+    if !ctx.quick() {
+        // thorough only: a root tree of height 20 (leaf indices beyond 16 bits). The model tree is
+        // not built; the library's signature is checked by the independent verifier under the
+        // library's own public key, and the structural fields against the model.
+        let tall = vec![
+            SignCase { hash: HashId::Sha256_128, levels: vec![(2, 20)], seed: gen::SeedSpec::Random(20), counter: 70_001, counter_class: "h20".into(), msg: gen::MsgSpec { len: 33, tag: 1 } },
+            SignCase { hash: HashId::Shake256_128, levels: vec![(1, 20), (8, 2)], seed: gen::SeedSpec::Random(21), counter: 4 * 1_000_003 + 3, counter_class: "h20".into(), msg: gen::MsgSpec { len: 70, tag: 2 } },
+        ];
+        ctx.enumerate("very_tall_root_h20", tall.len() as u64, false, |i| tall[i as usize].clone(), |c: &SignCase| {
+            let n = c.hash.n();
+            let m = compat_model(ctx, c.hash);
+            let seed = c.seed.bytes(n);
+            let msg = c.msg.bytes();
+            let (sk, pk) = match libapi::keygen(c.hash, &c.levels, &seed, None) {
+                Out::Ok(v) => v,
+                o => return fail(format!("keygen-{}", o.kind()), format!("{:?}", o.panic_msg())),
+            };
+            if sk != hss::private_key_blob(&c.levels, 0, &seed) {
+                return fail("private-key-blob", "H20 key blob");
+            }
+            let blob = with_counter(&sk, c.counter);
+            let sig = match libapi::sign(c.hash, &msg, &blob, Cb::Accept, None).0 {
+                Out::Ok(s) => s,
+                o => return fail(sign_failure_key(c.hash, &c.levels, o.kind()), format!("{:?}", o.panic_msg())),
+            };
+            if sig.len() != hss::sig_len(&Model::rfc(c.hash), &c.levels) {
+                return fail("sig-length", "H20 signature length");
+            }
+            let parsed = match hss::parse_signature(&m, &sig, 8) {
+                Some(p) => p,
+                None => return fail("sig-unparseable", "H20 signature does not parse"),
+            };
+            let qs = hss::leaf_indices(&c.levels, c.counter as u128);
+            if parsed.sigs.iter().map(|s| s.q).collect::<Vec<_>>() != qs {
+                return fail("sig-mismatch q", "H20 leaf indices");
+            }
+            let seeds = hss::path_seeds(&m, &seed, &c.levels, &qs);
+            if pk[12..28] != seeds[0].1 {
+                return fail("public-key I", "H20 root identifier");
+            }
+            // randomizer of the bottom signature is the seed-derived per-leaf value
+            let l = c.levels.len();
+            if parsed.sigs[l - 1].c != hss::randomizer(&m, &seeds[l - 1].0, &seeds[l - 1].1, qs[l - 1]) {
+                return fail("sig-mismatch C", "H20 randomizer");
+            }
+            if !hss::verify(&m, &msg, &sig, &pk) {
+                return fail("model-verify-rejects", "independent verifier rejects the signature of an H20 key at a leaf index beyond 16 bits");
+            }
+            pass(format!("h20|{}", c.hash.name()), true)
+        });
+    }
+
     // lifetime sweep of small shapes (every counter)
     let shapes = super::c01::small_shapes(!ctx.quick());
     let hashes: Vec<HashId> = if ctx.quick() { vec![HashId::Sha256_256, HashId::Shake256_192] } else { ALL_HASHES.to_vec() };
